@@ -334,12 +334,22 @@ func modelDataFor(e *E, m map[string]interface{}) map[string]interface{} {
 func runModel(x model.Expr) (outcome, string) { return runModelWith(x, data) }
 
 func runModelWith(x model.Expr, data map[string]interface{}) (outcome, string) {
+	return runModelOpt(x, data, false)
+}
+
+// floatFormsDiffer: the engine prints some float otherwise than Go's %v does. Then "string + x concatenates the printed
+// form of x" has two readings - the form output tags print, or Go's - and either is accepted.
+func floatFormsDiffer() bool {
+	return engineFloatText(1e6) != "1e+06" || engineFloatText(1e-5) != "1e-05" || engineFloatText(1.23456789e8) != "1.23456789e+08"
+}
+
+func runModelOpt(x model.Expr, data map[string]interface{}, concatGo bool) (outcome, string) {
 	var o outcome
 	helpers := map[string]model.Helper{
 		"t":   func(a []interface{}) (interface{}, error) { o.trace = append(o.trace, a[0].(int)); return a[1], nil },
 		"cap": func(a []interface{}) (interface{}, error) { o.val = a[0]; return nil, nil },
 	}
-	res := model.Run([]model.Node{model.Code{S: model.ExprS{X: model.Call{Fn: "cap", Args: []model.Expr{x}}}}}, data, addConstHelpers(helpers))
+	res := model.RunOpt([]model.Node{model.Code{S: model.ExprS{X: model.Call{Fn: "cap", Args: []model.Expr{x}}}}}, data, addConstHelpers(helpers), nil, concatGo)
 	if res.Unspec != "" {
 		return o, res.Unspec
 	}
@@ -554,6 +564,12 @@ func checkExprN(r *vk.Run, c Case, class string, nstyles int) *vk.Fail {
 			}
 			return fail("reference value %s, render failed: %v", model.Describe(want.val), res.Err)
 		}
+		if !sameVal(got.val, want.val) && floatFormsDiffer() {
+			if alt, u := runModelOpt(x, modelDataFor(&c.Expr, map[string]interface{}{}), true); u == "" && !alt.isErr && sameVal(got.val, alt.val) {
+				r.Class("string + float spelled as Go prints it")
+				continue
+			}
+		}
 		if !sameVal(got.val, want.val) {
 			return fail("value %s, reference says %s", model.Describe(got.val), model.Describe(want.val))
 		}
@@ -758,6 +774,9 @@ func checkSeq(r *vk.Run, c SeqCase, class string) *vk.Fail {
 		return fail("%d values captured, reference says %d", len(got.vals), len(want.vals))
 	}
 	for i := range want.vals {
+		if !sameVal(got.vals[i], want.vals[i]) && altSeqAgrees(prog, d, got, "", false) {
+			return nil
+		}
 		if !sameVal(got.vals[i], want.vals[i]) {
 			return fail("evaluation %d gave %s, reference says %s", i+1, model.Describe(got.vals[i]), model.Describe(want.vals[i]))
 		}
@@ -808,6 +827,8 @@ func checkSeqExec(r *vk.Run, c SeqCase, class string) *vk.Fail {
 				return nil
 			}
 			return fail("execution %d: reference values %v, failed: %v", i+1, want.vals, res.Err)
+		case len(got.vals) == 1 && !sameVal(got.vals[0], want.vals[0]) && altSeqAgrees(prog, d, got, "", false):
+			// the other reading of "the printed form" in string + float
 		case len(got.vals) != 1 || !sameVal(got.vals[0], want.vals[0]):
 			return fail("execution %d gave %v, reference says %s", i+1, got.vals, model.Describe(want.vals[0]))
 		case !reflect.DeepEqual(got.trace, want.trace):
@@ -926,6 +947,9 @@ func compareProg(prog []model.Node, d map[string]interface{}, fail func(src, msg
 			}
 			return fail(src, fmt.Sprintf("reference output %q values %v, render failed: %v", ref.Out, want.vals, res.Err)), true, ref, want
 		}
+		if altSeqAgrees(prog, d, got, res.Out, true) {
+			continue
+		}
 		if html.UnescapeString(res.Out) != html.UnescapeString(ref.Out) {
 			return fail(src, fmt.Sprintf("output %q, reference says %q", res.Out, ref.Out)), true, ref, want
 		}
@@ -942,6 +966,24 @@ func compareProg(prog []model.Node, d map[string]interface{}, fail func(src, msg
 		}
 	}
 	return nil, true, ref, want
+}
+
+// altSeqAgrees: the render agrees with the reference under the other reading of "the printed form" in string + float.
+func altSeqAgrees(prog []model.Node, d map[string]interface{}, got seqRun, out string, withOut bool) bool {
+	if !floatFormsDiffer() {
+		return false
+	}
+	var want seqRun
+	ref := model.RunOpt(prog, d, want.helpers(), nil, true)
+	if ref.Unspec != "" || ref.Err != "" || len(got.vals) != len(want.vals) {
+		return false
+	}
+	for i := range got.vals {
+		if !sameVal(got.vals[i], want.vals[i]) {
+			return false
+		}
+	}
+	return reflect.DeepEqual(got.trace, want.trace) && (!withOut || html.UnescapeString(out) == html.UnescapeString(ref.Out))
 }
 
 func (e *E) hasLeaf(name string) bool {
@@ -1130,7 +1172,7 @@ func (g *gen) typed(kind string, d int) *E {
 	return bin(rapid.SampledFrom(binOps).Draw(t, "op"), g.typed("any", d-1), g.typed("any", d-1))
 }
 
-const rule = "expression trees over a pool of int/float/string/bool/nil leaves (literals and variables, incl. negative numbers, a 2^53+1 integer as variable and as literal, literals 10 / 2^31 / the largest integer, the extreme integers as variables, floats whose printed form has an exponent (1000000.0, 123456789.0, 2.5e9, 0.00001, 1e-10), floats that are not exactly representable (0.1 0.2 0.3), minus zero, strings that look like numbers, truth values or operators, upper case, non-ASCII, an embedded quote, an unknown identifier) and the operators + - * / < <= > >= == != ~= && || ! and parentheses. (E) every tree of depth <=2 - all leaf pairs of the whole pool x 13 operators, !leaf, !!leaf, and both association shapes (a op1 b) op2 c / a op1 (b op2 c) over a 13-leaf (quick: 7-leaf) pool and five homogeneous pools; (F) FLAT unparenthesised sequences a o1 b o2 c o3 d for every operator triple x 8 (quick 6) operand rows, the tree being derived from the stated precedence order by a precedence-climbing parser of the check itself, and runs of 3..257 (thorough 3000) operands joined by one operator or the operators of one level; (N) redundant parentheses, repeated ! and right-nested chains to depth 400 (thorough 1500; beyond 64 levels a refusal with an error is accepted); (P) operands that are not literals or plain names: x[i], m[\"k\"], s.F, s.In.F, xs[i].F, f() - every pair x 13 operators and depth 2 over mixed spellings, with template variables named like the fields and keys present; (I) int64 variables: every pair x 13 operators and depth 2 (only trees whose integer leaves are all int64 are asserted); (the printed form of a float, in string + float and in emitted output, is what an output tag prints for that float: its spelling - exponent or plain decimals - is nobody's statement) (R) type-directed random trees to depth 5 in which every node is specified, plus deliberately ill-typed nodes that must be errors, with random redundant parentheses and operands wrapped in a recording helper t(i, x); typed random flat sequences of up to ~40 operands with negated operands and one ill-typed joint in ten. Every tree is printed with the minimal parentheses implied by the stated precedence/left-associativity and fully parenthesised, and (all of the small spaces, one in eight of the big depth-2 spaces) in one to six further SPELLINGS: operators glued to both operands, to the right one only (7 -2), to the left one only, two blanks / tab, line ends around every operator with back-quoted strings, every leaf in parentheses of its own, blanks inside parentheses and after !, float literals with a trailing zero (a minus sign is never glued to a preceding name: names may contain it); all spellings are rendered as <% cap(EXPR) %> and the captured typed Go value, the helper invocation order (left-to-right, short-circuit) and error-ness must equal the reference evaluator's. SITES: the same trees (all leaf pairs x 13 operators, all operator pairs in both shapes, random typed trees) as the operand of <%= %>, the right side of let and of assignment, an array element (first / last), a hash value, a second argument, the value returned by / the argument passed to a template function, the condition of if / else if / <%= if %>, an index, the element looped over, and three times in a row; output, captured values and helper order must equal the reference interpreter's for the whole template (values that are nil and trees naming the unknown identifier are left out: C10, C05). SEQUENCES: one expression over the variables p and q is evaluated 2-4 times (as the body of a template function called once per operand pair; inside a loop over the pairs; WRITTEN once per pair with p and q re-assigned in between; as one parsed template executed once per pair), the operand kinds changing from one evaluation to the next: (S1) p OP q for all 13 operators x every ordered pair (A, B) of 28 operand pairs that have a value - among them pairs of different kinds that print alike (2 2 / 2.0 2.0 / \"2\" \"2\") - evaluated A, B, A, and every value pair followed by every error pair; (SR) random shapes to depth 3 over p, q and literals with random rows; every captured value and the operand evaluation order must equal the reference evaluator's. Trees whose meaning the statement does not fix (bool==non-bool, string<non-string, string+nil, int overflow, float Inf/NaN, ~= on non-strings, int64 mixed with int) are counted under excluded:unspecified and not asserted. Non-trivial = depth >= 2 or an error outcome (every site and every sequence of >= 2 evaluations); distinct by minimal spelling / template text."
+const rule = "expression trees over a pool of int/float/string/bool/nil leaves (literals and variables, incl. negative numbers, a 2^53+1 integer as variable and as literal, literals 10 / 2^31 / the largest integer, the extreme integers as variables, floats whose printed form has an exponent (1000000.0, 123456789.0, 2.5e9, 0.00001, 1e-10), floats that are not exactly representable (0.1 0.2 0.3), minus zero, strings that look like numbers, truth values or operators, upper case, non-ASCII, an embedded quote, an unknown identifier) and the operators + - * / < <= > >= == != ~= && || ! and parentheses. (E) every tree of depth <=2 - all leaf pairs of the whole pool x 13 operators, !leaf, !!leaf, and both association shapes (a op1 b) op2 c / a op1 (b op2 c) over a 13-leaf (quick: 7-leaf) pool and five homogeneous pools; (F) FLAT unparenthesised sequences a o1 b o2 c o3 d for every operator triple x 8 (quick 6) operand rows, the tree being derived from the stated precedence order by a precedence-climbing parser of the check itself, and runs of 3..257 (thorough 3000) operands joined by one operator or the operators of one level; (N) redundant parentheses, repeated ! and right-nested chains to depth 400 (thorough 1500; beyond 64 levels a refusal with an error is accepted); (P) operands that are not literals or plain names: x[i], m[\"k\"], s.F, s.In.F, xs[i].F, f() - every pair x 13 operators and depth 2 over mixed spellings, with template variables named like the fields and keys present; (I) int64 variables: every pair x 13 operators and depth 2 (only trees whose integer leaves are all int64 are asserted); (the printed form of a float, in string + float and in emitted output, is what an output tag prints for that float: its spelling - exponent or plain decimals - is nobody's statement; in string + float both that form and Go's %v are accepted) (R) type-directed random trees to depth 5 in which every node is specified, plus deliberately ill-typed nodes that must be errors, with random redundant parentheses and operands wrapped in a recording helper t(i, x); typed random flat sequences of up to ~40 operands with negated operands and one ill-typed joint in ten. Every tree is printed with the minimal parentheses implied by the stated precedence/left-associativity and fully parenthesised, and (all of the small spaces, one in eight of the big depth-2 spaces) in one to six further SPELLINGS: operators glued to both operands, to the right one only (7 -2), to the left one only, two blanks / tab, line ends around every operator with back-quoted strings, every leaf in parentheses of its own, blanks inside parentheses and after !, float literals with a trailing zero (a minus sign is never glued to a preceding name: names may contain it); all spellings are rendered as <% cap(EXPR) %> and the captured typed Go value, the helper invocation order (left-to-right, short-circuit) and error-ness must equal the reference evaluator's. SITES: the same trees (all leaf pairs x 13 operators, all operator pairs in both shapes, random typed trees) as the operand of <%= %>, the right side of let and of assignment, an array element (first / last), a hash value, a second argument, the value returned by / the argument passed to a template function, the condition of if / else if / <%= if %>, an index, the element looped over, and three times in a row; output, captured values and helper order must equal the reference interpreter's for the whole template (values that are nil and trees naming the unknown identifier are left out: C10, C05). SEQUENCES: one expression over the variables p and q is evaluated 2-4 times (as the body of a template function called once per operand pair; inside a loop over the pairs; WRITTEN once per pair with p and q re-assigned in between; as one parsed template executed once per pair), the operand kinds changing from one evaluation to the next: (S1) p OP q for all 13 operators x every ordered pair (A, B) of 28 operand pairs that have a value - among them pairs of different kinds that print alike (2 2 / 2.0 2.0 / \"2\" \"2\") - evaluated A, B, A, and every value pair followed by every error pair; (SR) random shapes to depth 3 over p, q and literals with random rows; every captured value and the operand evaluation order must equal the reference evaluator's. Trees whose meaning the statement does not fix (bool==non-bool, string<non-string, string+nil, int overflow, float Inf/NaN, ~= on non-strings, int64 mixed with int) are counted under excluded:unspecified and not asserted. Non-trivial = depth >= 2 or an error outcome (every site and every sequence of >= 2 evaluations); distinct by minimal spelling / template text."
 
 // engineFloatText: the printed form of a float is what an output tag prints for it (no statement fixes its spelling);
 // "string + x concatenates the printed form of x" is judged against that.
